@@ -2,11 +2,11 @@ package main
 
 import (
 	"fmt"
-	"os"
-	"time"
 	"go/constant"
+	"os"
 	"sort"
 	"strings"
+	"time"
 )
 
 // ---- C09: PyPI versions order as PEP 440 specifies --------------------------------------------------
@@ -18,7 +18,7 @@ import (
 
 type pepFields struct {
 	epoch, release, pre, preNum, post, dev, local string // AE keys (".field"); "" when not located
-	why                                                 string
+	why                                           string
 }
 
 func pepLocate(p *Prog, e *Eco) *pepFields {
@@ -93,9 +93,9 @@ func phaseOf(word string) int {
 
 // pepDesc: a full abstract description of a pair of versions with equal epoch and release
 type pepDesc struct {
-	pre              [2]int  // 0 none, 1 a, 2 b, 3 rc
-	post, dev        [2]bool // present
-	rPre, rPost, rDev int    // relation of the numbers (x ? y), meaningful when both present
+	pre               [2]int  // 0 none, 1 a, 2 b, 3 rc
+	post, dev         [2]bool // present
+	rPre, rPost, rDev int     // relation of the numbers (x ? y), meaningful when both present
 }
 
 func (d pepDesc) String() string {
